@@ -242,14 +242,14 @@ F_FAMILIES = {
     "C01": ["lines", "congestion", "diamonds", "conveyors", "combiners"],
     "C06": ["diamonds", "fans", "splitters", "conveyors"],
     "C03": ["lines", "congestion", "diamonds", "combiners", "splitters", "conveyors", "draining", "nonblocking_fleet", "fleet_dense", "discards", "long_runs"],
-    "C08": ["lines", "congestion", "diamonds", "combiners", "splitters", "conveyors", "long_runs"],
+    "C08": ["lines", "congestion", "diamonds", "combiners", "splitters", "conveyors", "long_runs", "nonblocking_fleet"],
     "C09": ["lines", "congestion", "fans", "combiners", "splitters", "nonblocking_fleet", "discards", "long_runs"],
     "C10": ["lines", "congestion", "diamonds", "fans", "combiners", "splitters", "conveyors", "draining", "nonblocking_fleet", "fleet_dense", "discards", "long_runs"],
     "C12": ["conveyors", "diamonds", "draining", "long_runs", "splitters"],
     "C14": ["lines", "fleet_dense", "nonblocking_fleet", "long_runs", "diamonds"],
-    "C15": ["diamonds", "fans", "combiners", "splitters", "invalid_indices", "discards", "long_runs"],
+    "C15": ["diamonds", "fans", "combiners", "splitters", "invalid_indices", "discards", "long_runs", "nonblocking_fleet"],
     "C16": ["combiners", "splitters", "long_runs"],
-    "C17": ["lines", "congestion", "diamonds", "splitters", "combiners", "conveyors", "discards", "long_runs"],
+    "C17": ["lines", "congestion", "diamonds", "splitters", "combiners", "conveyors", "discards", "long_runs", "nonblocking_fleet"],
     "C18": ["lines", "congestion", "diamonds", "combiners", "splitters", "conveyors", "nonblocking_fleet", "fleet_dense", "discards", "long_runs"],
     "C20": ["lines", "congestion", "diamonds", "fans", "combiners", "splitters", "conveyors", "invalid", "c20_extra", "fleet_dense", "nonblocking_fleet", "discards", "long_runs"],
 }
